@@ -395,6 +395,53 @@ def check_fit_predict(run, A):
     run.floor('fit_predict methods', n, 7)
 
 
+def check_predict_fit_symmetry(run, A):
+    """R-SIB: the public `predict` prepares every observation stream exactly as `fit` prepares it for the E-steps inside EM.  For the models whose trainer calls
+    the private `_predict` directly (cACGMM and the two integration models) the argument handed to `self._predict` in `predict` and the one handed to
+    `model._predict` in `fit` have the same derivation from the parameter of the same name (projected to the unit sphere in both, or raw in both).  Otherwise the
+    posterior that is reported is not the posterior the model was trained with (a Gaussian stream normalised at prediction time only)."""
+    from .c04 import raw_param
+    n = 0
+    for cname, (mod, streams, obs) in MODELS.items():
+        mcls = A.prog.cls(f'{D}{mod}::{cname}')
+        tcls = A.prog.cls(f'{D}{mod}::{cname}Trainer')
+        pred, fit = mcls.methods.get('predict'), tcls.methods.get('fit')
+        pm = mcls.methods.get('_predict')
+        if pred is None or fit is None or pm is None:
+            continue
+        states = {}
+        for role, fn in (('predict', pred), ('fit', fit)):
+            ev = A.fresh_evaluator()
+            over = {p_: raw_param(ev, fn, p_) for p_ in obs if p_ in fn.params}
+            if not over:
+                continue
+            ctx = ev.entry(fn, overrides=over)
+            for c in ctx_tree(ctx):
+                for cf in c.callfacts:
+                    if callee_func(cf) is pm:
+                        for p_ in obs:
+                            v = cf.args.get(p_)
+                            if v is not None and ('param', p_) in v.deps:
+                                states.setdefault(p_, {}).setdefault(role, set()).add(v.norm if v.norm is not None else '?')
+        for p_, st in sorted(states.items()):
+            if 'predict' not in st or 'fit' not in st:
+                continue
+            n += 1
+            run.check(st['predict'] == st['fit'], 'R-SIB', f'{cname}: predict and fit hand `{p_}` to the E-step in the same state', pred.loc(), '',
+                      f'`{p_}` reaches {cname}._predict as {sorted(map(str, st["predict"]))} from predict but as {sorted(map(str, st["fit"]))} from fit (RAW = as given, '
+                      f'(UNIT, axis) = projected to the unit sphere): the reported posterior is not the one of the E-steps the model was fitted with',
+                      construct=f'R-SIB::{D}{mod}::{cname}::predict-fit::{p_}')
+    run.floor('observation streams compared between predict and fit', n, 8)
+
+
+def norm_text(t):
+    from ..walk import norm_stmt
+    try:
+        return norm_stmt(t.node)[:60]
+    except Exception:
+        return repr(t)[:60]
+
+
 def check_weights_and_initialisers(run, A):
     prog = A.prog
     # estimate_mixture_weight: L1 over the class axis
@@ -762,6 +809,7 @@ def check(run):
     check_posterior_routine(run, A, POSTERIOR_PA, -2, want_weight=False, want_mask=False)
     check_posterior_return(run, A)
     check_models(run, A)
+    check_predict_fit_symmetry(run, A)
     check_fit_predict(run, A)
     check_weights_and_initialisers(run, A)
     check_unsqueeze(run, A)
